@@ -48,8 +48,10 @@ def run(ck, tier):
     ck.rule("R-C18-first", "the first word-like token is capitalised whatever it is: the word loop compares the ordinal of the word-like token (the enumerate() counter over iter_word_likes()) with 0, and the true edge of that test reaches the upper-casing store before the next iteration on every path")
     ck.rule("R-C18-caseonly", "every store output[i] = v has v = to_ascii_uppercase/lowercase of output[i] at the same index expression, or an element of the dictionary's canonical capitalisation of that same word under the is_proper_noun guard")
     ck.not_decided += ["idempotence (depends on should_capitalize_token's values)", "in-bounds-ness of correct_caps[idx]"]
+    ck.rule("R-C18-idem", "premise of idempotence: what make_title_case decides for a word depends on the word's letters regardless of their case (dictionary look-ups by word id, lower-cased comparisons), on its kind and on its position - never on the case the letters currently have; with the three case-only operations (upper-case the first letter, lower-case the word, copy the canonical spelling) that makes a second pass decide the same and change nothing. A decision that reads the current case is reported as undecided, not refuted: it can still be idempotent")
     p = facts.load()
     byk = fns_by_key(p)
+    _idem(ck, p)
     fs = byk.get("harper_core::title_case::make_title_case")
     if not ck.anchor("R-C18-length", "title_case::make_title_case", fs):
         return
@@ -229,3 +231,40 @@ def _first(ck, p, byk):
         ck.refuted(rule, "make_title_case:first-word", f.loc(sx["ln"]), "the first-word test compares a token position (%s) with 0: a title that opens with a quote, bracket or blank has its first word at a later position, so a leading `the`/`of`/`and` stays lower-case" % ", ".join(names))
     else:
         ck.refuted(rule, "anchor-missing:first-word-test", f.span, "no comparison of a word ordinal with 0 found in make_title_case: the clause `the first word is always capitalised` has no mechanism the check can see (fail closed)")
+
+
+CASE_READS = {"is_uppercase", "is_lowercase", "is_ascii_uppercase", "is_ascii_lowercase", "is_titlecase", "is_alphabetic_uppercase"}
+
+
+def _idem(ck, p):
+    rule = "R-C18-idem"
+    from ..util import with_closures
+    fns = [f for f in p.fns.values() if f.name.startswith("harper_core::title_case::") and f.get("kind") != "Promoted" and "::tests::" not in f.name and "::{impl" not in f.name]
+    fns = [f for f in fns if not f.name.startswith("harper_core::title_case::tests")]
+    if not ck.anchor(rule, "functions of harper_core::title_case", fns):
+        return
+    reads = []
+    n = 0
+    for f in sorted(fns, key=lambda f: f.name):
+        if "lazy_static" in f.name or "SPECIAL_CONJUNCTIONS" in f.name:
+            continue
+        n += 1
+        ck.saw(f)
+        pv = Prov(f)
+        for bi, t in f.calls():
+            m = method(t)
+            if m in CASE_READS:
+                reads.append("%s (%s, line %d)" % (m, keyname(p, f), t["ln"]))
+            elif m in ("eq", "ne") and (def_of(t) or "").endswith(("cmp::PartialEq::eq", "cmp::PartialEq::ne")):
+                tys = " ".join(f.ty(x)["s"] for x in t["f"].get("targs", []) if isinstance(x, int))
+                if "char" in tys:
+                    conv = set()
+                    for a in t["args"][:2]:
+                        conv |= {last(norm(o[3] or o[2] or "")) for o in arg_roots(f, pv, a) if o[0] == "call"}
+                    if not conv & {"to_lower", "to_lowercase", "to_ascii_lowercase", "to_uppercase", "to_ascii_uppercase"}:
+                        reads.append("case-sensitive comparison of characters (%s, line %d)" % (keyname(p, f), t["ln"]))
+    key = "title_case:decisions-ignore-current-case"
+    if reads:
+        ck.undecided(rule, key, "", "a decision reads the current letter case: %s - a second pass sees other cases than the first and may decide differently (for example a word typed pH: not all-caps on the first pass, all-caps PH after it); idempotence is not decided" % "; ".join(reads[:4]))
+    else:
+        ck.proved(rule, key, "", "%d functions of the module: no case predicate on the text and no case-sensitive comparison of its characters" % n)
